@@ -310,6 +310,14 @@ func init() {
 			for _, v := range dynamics {
 				cases = append(cases, Case{"doc": Doc{{Deg: "1", Sym: "", Vals: one()}, {Deg: "1", Sym: "", Vals: one(), Vel: "mf"}}, "flags": Flags{Vel: v}, "tracks": 1})
 			}
+			// time signatures at and beyond what the event can carry (one byte for the numerator, one for the exponent)
+			for _, m := range []Frac{{255, 4}, {256, 4}, {300, 4}, {257, 8}, {4, 128}, {4, 256}, {4, 512}, {3, 1}, {1, 1}, {255, 128}, {65536, 4}, {4, 65536}} {
+				mm := m
+				cases = append(cases,
+					Case{"doc": Doc{{Deg: "1", Sym: "", Vals: one(), Meter: &mm}, {Deg: "5", Sym: "", Vals: one()}}, "flags": Flags{}, "tracks": 1},
+					Case{"doc": Doc{{Deg: "1", Sym: "", Vals: one()}, {Rest: true, Vals: one()}, {Deg: "5", Sym: "", Vals: one(), Meter: &mm}}, "flags": Flags{}, "tracks": 2},
+					Case{"doc": Doc{{Deg: "1", Sym: "", Vals: one()}}, "flags": Flags{Meter: fmt.Sprintf("%d/%d", m.N, m.D)}, "tracks": 1})
+			}
 			// every subset of the four override flags, on a document that sets everything on its first and on a later instance
 			full := Doc{{Deg: "1", Sym: "", Vals: one(), BPM: 150, Meter: &Frac{3, 4}, Vel: "pp", Key: "Eb", Txt: "first"},
 				{Rest: true, Vals: []Frac{{1, 2}}}, {Deg: "4", Sym: "m", Vals: one()},
